@@ -36,6 +36,8 @@ OBLIGATIONS = [
     "Grog.C19.same_answer_ancestors",
     "Grog.C19.ladder_exponential",
     "Grog.C19.ladder_visited_linear",
+    "Grog.C19.changes_cost_le",
+    "Grog.C19.visited_nodup",
 ]
 ASSUMPTIONS = [
     "cost of the real code is observed through allocation counts / wall time only (no hooks); thresholds: growth < 4, ladder/chain < 20, absolute bounds 20 s / 30 s",
